@@ -40,7 +40,7 @@ class VirusOnNetwork(Model):
     ):
         super().__init__(seed=seed)
         prob = avg_node_degree / num_nodes
-        graph = nx.erdos_renyi_graph(n=num_nodes, p=prob)
+        graph = nx.erdos_renyi_graph(n=num_nodes, p=prob, seed=self.random)
         self.grid = Network(graph, capacity=1, random=self.random)
 
         self.initial_outbreak_size = (
